@@ -76,7 +76,7 @@ TickClauses(e) ==
                 => (prePauseRun = e.runId /\ e.out1 = prePause)>>,
        \* C13
        <<"C13.error-pauses", e.failedNodes # <<>> => e.paused /\ e.status = "Error">>,
-       <<"C13.failed-line-reported", e.failedNodes # <<>> /\ e.started => SetOfSeq(e.failedNodes) \subseteq SetOfSeq(e.mfailed)>>,
+       <<"C13.failed-line-reported" \o (IF e.edited THEN "@after-live-edit" ELSE ""), e.failedNodes # <<>> /\ e.started => SetOfSeq(e.failedNodes) \subseteq SetOfSeq(e.mfailed)>>,
        <<"C13.stop-completes", stopAt # 0 /\ e.t + 1 >= stopAt + 3 => ~e.started>> >>
 
 NoPrev == [t |-> -1]
